@@ -33,7 +33,11 @@ def is_verifier(ep):
 
 
 PRED_PAT = re.compile(r"^(verify|is_|validate|check_|has_|batch_verify)|(^|_)verify")
-SKIP_MODULES = ("btclib.fetch", "btclib.hwi", "btclib.core_import")   # network / subprocess back ends
+SKIP_MODULES = ("btclib.fetch", "btclib.hwi")   # network / subprocess back ends
+# functions that read a node's JSON replies without a parse/decode/from_ name (btclib.core_import makes no rpc call:
+# it builds requests and reads `listdescriptors` / `importdescriptors` replies handed to it)
+EXTRA_ENTRY_POINTS = ("btclib.core_import.watched_range", "btclib.core_import.widened_range", "btclib.core_import.assert_imported",
+                      "btclib.core_import.import_request", "btclib.core_import.account_import_requests")
 
 
 class Watchdog(BaseException):
@@ -112,6 +116,12 @@ def enumerate_entry_points():
                     raw = inspect.getattr_static(o, mn, None)
                     if isinstance(raw, (classmethod, staticmethod)):
                         consider(f"{m.__name__}.{n}.{mn}", getattr(o, mn), mn)
+    for q in EXTRA_ENTRY_POINTS:
+        try:
+            fn = resolve(q)
+            eps[q] = {"fn": fn, "kind": "parse", "sig": inspect.signature(fn), "bool_ret": False}
+        except (ImportError, AttributeError, TypeError, ValueError):
+            continue
     _EPS = eps
     return eps
 
@@ -456,15 +466,11 @@ def _respell(R, rng, ep, args, kwargs, fn, bool_ret, limit):
             if o3 == "ok" and not _same_value(base[2], v3):
                 return
         if not same:
-            w = {"ep": ep, "args": a2, "kwargs": k2}
-            if outcome == "ok" == base[1]:
-                # accepted in both spellings with DIFFERENT values: a finding
-                R.fail(f"{ep}:spelling-differs", "spell",
-                       f"{ep} accepts the {base[0]} and the {name} spelling of the same content with different values on {G.short(w)}", w)
-            else:
-                # accepted in one spelling, refused (library exception) in another: a str is text, bytes are exact --
-                # not what the property asks; kept as a statistic
-                R.counts[("spell.accepted-vs-refused", ep, "noted")] = R.counts.get(("spell.accepted-vs-refused", ep, "noted"), 0) + 1
+            # the property asks for an answer or a library exception in EVERY spelling (a foreign exception in one of
+            # them is already a finding of the class oracle); it does not ask that a str (text, stripped) and bytes
+            # (exact) agree: disagreements are an informational count
+            kind = "different-values" if outcome == "ok" == base[1] else "accepted-vs-refused"
+            R.counts[("spell." + kind, ep, "noted")] = R.counts.get(("spell." + kind, ep, "noted"), 0) + 1
 
 
 def _call_spec(R: Recorder, stream: str, ep: str, args, kwargs=None, *, fn=None, bool_ret=False,
@@ -500,14 +506,28 @@ def _call_spec(R: Recorder, stream: str, ep: str, args, kwargs=None, *, fn=None,
         return outcome, None
     if bool_ret and not isinstance(value, bool):
         R.fail(f"{ep}:not-bool", stream, f"{ep} answered {type(value).__name__}, not a bool, on {G.short(witness)}", witness)
-    # a caller's stream: no more read than the object's own serialization
-    if stream_check and a and isinstance(a[0], BytesIO) and hasattr(value, "serialize"):
+    # a caller's stream: no more read than the parser NEEDS.  Judged on the encoded structure itself, not against
+    # a re-serialization (a parser that is lax or normalising by design re-serializes shorter without having read
+    # one byte too many):  (i) every byte consumed was needed -- the same stream cut one byte short of the position
+    # reached must not give the same object;  (ii) nothing after the position reached was looked at -- with a
+    # different tail the parser stops at the same position with the same object.
+    if stream_check and a and isinstance(a[0], BytesIO) and type(value).__module__.startswith("btclib") \
+            and type(value).__eq__ is not object.__eq__:
         pos = a[0].tell()
-        o2, ser, _ = guarded(lambda: _ser(value), (), {})
-        if o2 == "ok" and isinstance(ser, (bytes, bytearray)) and pos > len(ser):
-            R.fail(f"{ep}:overread", stream,
-                   f"{ep} consumed {pos} bytes of the caller's stream, its own serialization is {len(ser)} bytes, on {G.short(witness)}",
-                   witness)
+        buf = a[0].getvalue()
+        if 0 < pos <= len(buf):
+            o2, v2, _ = guarded(f, [BytesIO(buf[:pos - 1])] + a[1:], kw, limit)
+            if o2 == "ok" and _same_value(value, v2):
+                R.fail(f"{ep}:overread", stream,
+                       f"{ep} consumed {pos} bytes of the caller's stream although the first {pos - 1} give the same object, "
+                       f"on {G.short(witness)}", witness)
+            tail = bytes((x ^ 0xFF) for x in buf[pos:pos + 16]) or b"\xff" * 8
+            s3 = BytesIO(buf[:pos] + tail)
+            o3, v3, _ = guarded(f, [s3] + a[1:], kw, limit)
+            if len(buf) > pos and (o3 != "ok" or s3.tell() != pos or not _same_value(value, v3)):
+                R.fail(f"{ep}:looks-past", stream,
+                       f"{ep} stopped at byte {pos} of the caller's stream but answers differently ({o3}, position "
+                       f"{s3.tell()}) when only the bytes AFTER that position change, on {G.short(witness)}", witness)
     if consumers and value is not None and type(value).__module__.startswith("btclib"):
         for cname, thunk in consumer_calls(value) + specific_consumers(value):
             _hb(wfull[:20000], cname)
